@@ -294,6 +294,22 @@ def run(tier, seed):
     sc = scenario.run(rng, 20 if q else 200)
     run.validate("scenario-typing", "Trace_Typing", sc["typing"], None, sigfn=lambda c, ev, tr: c + "|history",
                  describe=lambda c, ev, tr: "%s: after a history on live objects, class %s on %s answered %s" % (c, ev["cls"]["name"], dna.dec(ev["seq"]), {k: v for k, v in ev["res"].items() if k in ("valid", "again", "qexc")}))
+    # ... and every answer of those histories is compared with the answer of a fresh process
+    nfresh = 0
+    for tr in sc["typing"]:
+        for ev in tr:
+            seq = dna.dec(ev["seq"])
+            fr = fresh_answer(ev["cspec"], seq)
+            nfresh += 1
+            got, want = ev["res"], fr
+            if (got["valid"], got["up"], got["down"], got["tgt"], got["exc"]) != (want["valid"], want["up"], want["down"], want["tgt"], want["exc"]):
+                run.violation("C06", "C06:SameAsFresh", "C06:SameAsFresh|history",
+                              "after a history on live objects (records edited in place, wrapped again while earlier wrappers are alive) class %s on %s "
+                              "answered valid=%s up=%s down=%s target=%s; a fresh process answers valid=%s up=%s down=%s target=%s"
+                              % (ev["cls"]["name"], seq, got["valid"], dna.dec(got["up"]), dna.dec(got["down"]), dna.dec(got["tgt"]),
+                                 want["valid"], dna.dec(want["up"]), dna.dec(want["down"]), dna.dec(want["tgt"])),
+                              {"kind": "scenario", "note": "history-dependent: re-run the check with the same seed", "cspec": ev["cspec"], "seq": seq})
+    run.extra["scenario_answers_compared_with_fresh"] = nfresh
     return run.finish("TLC: every validation history of length <= %d over the class forest {G; P1,P2<G; Q<P1; V} x 5 records (exhaustive); "
                       "negative model (inherited cache lookup) refuted; S->I: every enumerated history replayed on a freshly built real "
                       "class tree (answer and cache slots compared); I->S: ordered pairs and random histories over the 85 kit classes, "
@@ -307,6 +323,20 @@ def replay_case(rec):
         obs, cache = replay_history(case["world"], case["hist"])
         log("replay: history %s -> obs %s cache %s (spec: %s %s)" % (case["hist"], obs, cache, case["spec_obs"], case["spec_cache"]))
         return obs != case["spec_obs"] or any(v not in ("none", k) for k, v in cache.items())
+    if case.get("kind") == "scenario":
+        # the history is not stored; the violation is confirmed by re-running the scenario part of the check
+        import random
+        from .. import scenario
+        loader.load()
+        import moclo.kits.ytk, moclo.kits.cidar, moclo.kits.ecoflex, moclo.kits.moclo, moclo.kits.plant  # noqa
+        _server[0] = forked.Server()
+        sc = scenario.run(random.Random(rec.get("seed", 0)), 60)
+        for tr in sc["typing"]:
+            for ev in tr:
+                fr = fresh_answer(ev["cspec"], dna.dec(ev["seq"]))
+                if (ev["res"]["valid"], ev["res"]["up"], ev["res"]["down"], ev["res"]["tgt"]) != (fr["valid"], fr["up"], fr["down"], fr["tgt"]):
+                    return True
+        return False
     from ..core import generic_replay
 
     def ex(r):
